@@ -122,6 +122,8 @@ Definition run_eval : dispatcher := fun op args =>
         else if opeq o "lshift" then Some (sx_opt sx_N (Some (l1_lshift_polls fa la)))
         else if opeq o "rshift" then Some (sx_opt sx_N (Some (l1_rshift_polls fa la)))
         else if opeq o "divmod" then Some (sx_opt sx_N (l1_divmod_polls fa la fb lb))
+        else if opeq o "rshift_n" then Some (sx_opt sx_N (Some (l1_rshift_n_polls fa la (limbs_val lb))))
+        else if opeq o "lshift_n" then Some (sx_opt sx_N (Some (l1_lshift_n_polls_min (limbs_val lb))))
         else Some sx_bad
       | _, _ => Some sx_bad
       end
